@@ -10,6 +10,7 @@ package main
 
 import (
 	"fmt"
+	"go/types"
 	"strings"
 )
 
@@ -30,6 +31,7 @@ type State struct {
 	havocAllGhost bool
 	havocSet      map[string]bool
 	havocTag      string
+	havocFields   map[string]map[int]bool // heaps of which only these fields may have changed (objects existing before)
 	root          bool
 	cache         map[string]string
 }
@@ -120,6 +122,9 @@ func (s *State) get(name string) string {
 		if hit {
 			t = s.vc.freshConst("hv_"+s.havocTag+"_"+name, s.vc.stateVarSort(name))
 			s.vc.havocFacts(name, s.parent.get(name), t)
+			if fs, ok := s.havocFields[name]; ok {
+				s.vc.fieldFrame(name, s.parent.get(name), t, s.parent.get(s.vc.nextVar()), fs)
+			}
 			if strings.HasPrefix(name, "E_") && !strings.HasSuffix(name, "_cnt") {
 				// ghost facts every effect record satisfies: the last-emission time lies between the old
 				// clock and the new clock iff the count grew; with an unchanged count the record is unchanged
@@ -183,4 +188,34 @@ func (vc *VC) havocFacts(name, old, new string) {
 	case name == "CLK" || name == "NEXT" || (strings.HasPrefix(name, "E_") && strings.HasSuffix(name, "_cnt")):
 		vc.assume(fmt.Sprintf("(<= %s %s)", old, new))
 	}
+}
+
+// fieldFrame: inside the loop only the listed fields of objects of this heap are
+// written (through field paths); every other field of every object that existed
+// before the loop is unchanged.
+func (vc *VC) fieldFrame(hv, h0, h1, next string, written map[int]bool) {
+	var t types.Type
+	for tt, name := range vc.heapTypes {
+		if name == hv {
+			t = tt
+		}
+	}
+	if t == nil {
+		return
+	}
+	st, ok := t.Underlying().(*types.Struct)
+	if !ok {
+		return
+	}
+	var conj []string
+	for i := 0; i < st.NumFields(); i++ {
+		if written[i] {
+			continue
+		}
+		conj = append(conj, eq(fmt.Sprintf("(%s (select %s a))", vc.fieldAcc(t, i), h1), fmt.Sprintf("(%s (select %s a))", vc.fieldAcc(t, i), h0)))
+	}
+	if len(conj) == 0 {
+		return
+	}
+	vc.assume(fmt.Sprintf("(forall ((a Int)) (! (=> (and (< 0 a) (< a %s)) %s) :pattern ((select %s a))))", next, and(conj...), h1))
 }
